@@ -29,6 +29,6 @@ Definition ws_lines (na : Z) (A : file_ast) (lys : list layout) : list string :=
   map (fun p => layout_line (fst p) (snd p)) (combine lys (ast_lines na A)).
 
 (* the file: the laid-out token lines, then the trailer lines, separated by "\n"; the newline after the very
-   last line is present iff [final_nl].  (With [final_nl = true] and single-blank layouts this is [render].) *)
+   last line is present iff [final_nl] (with [final_nl = true] every line is followed by "\n", as in [render]). *)
 Definition render_ws (na : Z) (A : file_ast) (lys : list layout) (trailer : list string) (final_nl : bool) : string :=
   join (String nl "") (ws_lines na A lys ++ trailer) +++ (if final_nl then String nl "" else "").
